@@ -80,7 +80,6 @@ class TwoRateTokenBucket(Device):
             self.update_time = now
 
             if self.pir:
-                assert self.current_bucket_peak
                 if packet.size > self.current_bucket_peak:
                     yield env.timeout(
                         (packet.size - self.current_bucket_peak) * 8.0 / self.pir
